@@ -312,7 +312,33 @@ fn must_reject(ctx: &mut Ctx, bytes: &[u8], why: &str) {
     }
 }
 
+/// Tiny subset for the Miri interpreter (deku/bitvec are unsafe-heavy).
+fn run_miri(ctx: &mut Ctx) {
+    for i in 0..200u64 {
+        if ctx.mine(i) {
+            ctx.begin(i);
+            let mut rng = ctx.rng("c09.miri", i);
+            let mut h = rand_header(&mut rng);
+            h = with_coords(h, [rng.next() as i32, rng.next() as i32, 21, -21, i32::MAX, i32::MIN]);
+            decode_encode(ctx, &h, i % 4 == 0);
+            let b = R::header_pack(&h);
+            if i % 10 == 0 {
+                must_reject(ctx, &b[..(i as usize) % 127], "fewer than 127 bytes were supplied");
+                let mut bad = b;
+                bad[7] = 4;
+                must_reject(ctx, &bad, "the version is not 3");
+            }
+            ctx.case(crate::rng::hash_bytes(&b) ^ 0x9, true);
+            ctx.end(i);
+        }
+    }
+}
+
 pub fn run(ctx: &mut Ctx) {
+    if ctx.sub == "miri" {
+        run_miri(ctx);
+        return;
+    }
     let mut case = 0u64;
     // ---- 1. stored coordinate sweep (decode -> encode): six slots per header
     let stride: u64 = ctx.n(4099, 1);
